@@ -561,8 +561,43 @@ def check_bits_strategies(ctx, ci):
         ctx.holds('R8-confinement', comp, 'Bits._compile installs no other pack / unpack', 'every bit field runs Bits.pack / Bits.unpack', comp.node.lineno, clause='d')
 
 
+def check_declaration_order(ctx, rule='R8-bits-run'):
+    """Round 6.  (a0) the run a bit field belongs to, and its place in it, is its place in the
+    class body: the class builder keeps the fields in the order of the class namespace
+    (self.attrs.items(), ordered since Python 3.6) -- no sorting by another key, no reversal, no
+    set.  A list sorted by creation time puts a field object made before the class body (a
+    module-level Bits(3) used in two declarations, a field built by a helper) at the front of its
+    run, where it takes the most significant bits"""
+    repo = ctx.repo
+    pb = repo.classes.get('PacketClassBuilder')
+    fi = pb.methods.get('collect_the_fields_from_class_definition') if pb is not None else None
+    if fi is None:
+        ctx.undecided(rule, ('bisturi/packet_builder.py', 'PacketClassBuilder'), 'field collection', 'anchor collect_the_fields_from_class_definition not found', 0, clause='a')
+        return
+    seen = False
+    for p in repo.walker().paths(fi.node, cls=pb):
+        if p.raises():
+            continue
+        for e in p.effects:
+            if e.kind == 'store_attr' and canon(e.obj) == 'self' and e.name == 'fields_in_class':
+                seen = True
+                v = e.value
+                st = 'self.fields_in_class = %s' % canon(v)[:110]
+                reorder = [x for x in ast.walk(v) if isinstance(x, ast.Call) and (call_name(x) in ('sorted', 'reversed', 'set', 'frozenset', 'heapq.nsmallest', 'heapq.nlargest', 'random.sample', 'random.shuffle'))]
+                inplace = [x for x in p.effects if x.kind == 'call' and isinstance(x.call.func, ast.Attribute) and x.call.func.attr in ('sort', 'reverse') and 'fields_in_class' in canon(x.call.func.value)]
+                if reorder or inplace:
+                    ctx.violation(rule, fi, st, 'the collected fields are reordered (%s): a field object created before its place in the class body (shared between declarations, made by a helper) moves inside its run of bit fields and takes other bits' % (call_name(reorder[0]) if reorder else '.%s()' % inplace[0].call.func.attr), e.lineno, clause='a', witness=True)
+                elif 'self.attrs.items()' in canon(v) or 'self.attrs' in canon(v):
+                    ctx.holds(rule, fi, st, 'class-body order (the order of the class namespace), filtered only', e.lineno, clause='a')
+                else:
+                    ctx.undecided(rule, fi, st, 'cannot see that the list follows the class namespace order', e.lineno, clause='a')
+    if not seen:
+        ctx.undecided(rule, fi, 'collect_the_fields_from_class_definition', 'no store of fields_in_class found', fi.node.lineno, clause='a')
+
+
 def check(ctx):
     repo = ctx.repo
+    check_declaration_order(ctx)
     ci = repo.cls('Bits')
     for m in ('_compile', 'init', 'unpack', 'pack'):
         if m not in ci.methods:
